@@ -13,6 +13,10 @@ from vlib.ref import dft as rdft
 from vlib.ref import plane_model as pm
 from vlib.runner import Skip, Violation, hyp, lentil_call
 
+# the check's own calls are issued with keywords or positionally in the documented order (vlib/callforms.py)
+from vlib import callforms as _cf
+lentil = _cf.proxy(lentil)
+
 RULE = ("apertures (monolithic or segmented with one tilt per segment) whose tilt is expressed as an OPD ramp, "
         "Tilt planes at any chain position, Wavefront(tilt=), fit_tilt (copy / in place) or first-order "
         "dispersive elements, with square and non-square output pixels; non-trivial = some metadata shift has a "
